@@ -44,6 +44,7 @@ struct Options {
   bool seed_set = false;
   bool selftest = false, list = false, quiet = false, no_min = false, dump_case = false;
   double max_seconds = -1;
+  double deadline = -1; // absolute (steady clock): set by the driver so that restarted workers share one budget
   long start_index = 0;
   std::string worker_file; // internal: worker mode
   int worker_id = -1;
@@ -176,6 +177,8 @@ static int worker_main(const Options &o) {
   long done = 0;
   for (long i = o.start_index + o.worker_id; i < o.start_index + o.runs; i += o.workers) {
     if (o.max_seconds > 0 && now_s() - t0 > o.max_seconds)
+      break;
+    if (o.deadline > 0 && now_s() > o.deadline)
       break;
     size_t ei = (size_t)(i % (long)engs.size());
     if (doms[ei].empty())
@@ -509,6 +512,9 @@ static int property_main(const Options &o) {
   std::vector<pid_t> pids(W, -1);
   std::vector<std::string> files(W);
   std::vector<long> restart_from(W, o.start_index);
+  // one time budget for the whole batch: a worker restarted after a crash or a
+  // watchdog kill does not get a fresh one
+  const double batch_deadline = o.max_seconds > 0 ? now_s() + o.max_seconds : -1;
   auto launch = [&](int w, long start) {
     files[w] = outdir + "/worker_" + std::to_string(w) + ".jsonl";
     pid_t pid = fork();
@@ -518,6 +524,7 @@ static int property_main(const Options &o) {
       wo.worker_file = files[w];
       wo.start_index = start;
       wo.runs = o.runs - (start - o.start_index);
+      wo.deadline = batch_deadline;
       // stdout/stderr of crab (warnings) are not interesting
       int dn = open("/dev/null", O_WRONLY);
       if (dn >= 0) {
@@ -572,6 +579,8 @@ static int property_main(const Options &o) {
       }
       if (last_start < 0 || crashed > 200)
         break;
+      if (batch_deadline > 0 && now_s() > batch_deadline)
+        break; // the batch's time is used up: no restart
       // next index of this worker's stride
       long next = last_start + W;
       if (next >= o.start_index + o.runs)
